@@ -20,7 +20,7 @@ PAT_SHAPES = {
     "o": (10, 11, 9, 10), "h": (10, 10.25, 8, 10.2), "i": (8, 10, 7.95, 8.2),
     "s": (14.5, 15, 14, 14.5), "t": (6, 6.5, 5.5, 6),
 }
-PREAMBLES = ["UDJUDJUDJU", "LUJDULJDUJ", "JJLLUUDDJL"]
+PREAMBLES = ["UDJUDJUDJU", "LUJDULJDUJ", "JJLLUUDDJL", "sDJUDJUDJU", "tUJDULJDUJ"]  # the last two open with a flat-bodied candle far from the rest
 
 SINGLE = ["rising", "falling", "mean_rising", "mean_falling", "highest", "lowest", "highestbar", "lowestbar", "value_range"]
 DOUBLE = ["cross", "crossover", "crossunder"]
